@@ -9,6 +9,8 @@ import (
 	"github.com/element-of-surprise/coercion/workflow/utils/walk"
 	"github.com/google/uuid"
 	"github.com/gostdlib/base/context"
+	"zombiezen.com/go/sqlite"
+	"zombiezen.com/go/sqlite/sqlitex"
 )
 
 type vhBadReq struct {
@@ -17,11 +19,31 @@ type vhBadReq struct {
 
 var vhTables = []string{"plans", "blocks", "checks", "sequences", "actions"}
 
-// vhRowsOf counts the rows that belong to plan id in every table (symbolic mode: from the row store; natively -1).
-func vhRowsOf(id uuid.UUID) int {
-	n := api.SQLRowCount("plans", "id", id.String())
-	for _, t := range vhTables[1:] {
-		n += api.SQLRowCount(t, "plan_id", id.String())
+// vhRowsOf counts the rows that belong to plan id in every table: from the row store symbolically, from the real
+// in-memory SQLite natively (through the vault's test-only Pool accessor).
+func vhRowsOf(v *Vault, id uuid.UUID) int {
+	if api.Symbolic() {
+		n := api.SQLRowCount("plans", "id", id.String())
+		for _, t := range vhTables[1:] {
+			n += api.SQLRowCount(t, "plan_id", id.String())
+		}
+		return n
+	}
+	conn, err := v.Pool().Take(context.Background())
+	if err != nil {
+		return -1
+	}
+	defer v.Pool().Put(conn)
+	n := 0
+	for i, t := range vhTables {
+		col := "plan_id"
+		if i == 0 {
+			col = "id"
+		}
+		sqlitex.ExecuteTransient(conn, "SELECT COUNT(*) FROM "+t+" WHERE "+col+" = ?", &sqlitex.ExecOptions{
+			Args:       []any{id.String()},
+			ResultFunc: func(stmt *sqlite.Stmt) error { n += stmt.ColumnInt(0); return nil },
+		})
 	}
 	return n
 }
@@ -64,18 +86,14 @@ func VerifC14Atomic() {
 		api.Reach("failure injected")
 	}
 	if err != nil {
-		if api.Symbolic() {
-			api.Assert(vhRowsOf(p.ID) == 0, "C14: a failed Create leaves no trace of the plan in any table")
-		}
+		api.Assert(vhRowsOf(v, p.ID) == 0, "C14: a failed Create leaves no trace of the plan in any table")
 		got, rerr := v.Read(ctx, p.ID)
 		api.Assert(rerr != nil && got == nil, "C14: a failed Create leaves nothing readable")
 		api.Reach("create failed")
 		return
 	}
 	api.Reach("create succeeded")
-	if api.Symbolic() {
-		api.Assert(vhRowsOf(p.ID) == vhObjects(p), "C14: a successful Create stores one row per object")
-	}
+	api.Assert(vhRowsOf(v, p.ID) == vhObjects(p), "C14: a successful Create stores one row per object")
 	got, rerr := v.Read(ctx, p.ID)
 	api.Assert(rerr == nil && got != nil, "C14: a successful Create implies the plan is readable")
 	if rerr == nil && got != nil {
@@ -99,9 +117,7 @@ func VerifC14Twice() {
 		vhEqPlan(p, got)
 		api.Reach("first plan intact after duplicate create")
 	}
-	if api.Symbolic() {
-		api.Assert(vhRowsOf(p.ID) == vhObjects(p), "C14: a rejected duplicate Create leaves none of its rows behind")
-	}
+	api.Assert(vhRowsOf(v, p.ID) == vhObjects(p), "C14: a rejected duplicate Create leaves none of its rows behind")
 }
 
 // VerifC14Delete: Delete removes the plan and every object belonging to it and nothing belonging to any other plan.
@@ -121,10 +137,8 @@ func VerifC14Delete() {
 	api.Assert(err == nil, "C14: Delete of a stored plan succeeds")
 	api.Assert(api.SQLWritesOutsideTx() == w0, "C14: every delete statement runs inside the transaction")
 	api.Assert(api.SQLOpenTx() == 0 && !api.SQLConnTaken(), "C14: Delete leaves no open transaction and returns the connection")
-	if api.Symbolic() {
-		api.Assert(vhRowsOf(p1.ID) == 0, "C14: Delete removes the plan and every object belonging to it")
-		api.Assert(vhRowsOf(p2.ID) == vhObjects(p2), "C14: Delete removes nothing belonging to another plan")
-	}
+	api.Assert(vhRowsOf(v, p1.ID) == 0, "C14: Delete removes the plan and every object belonging to it")
+	api.Assert(vhRowsOf(v, p2.ID) == vhObjects(p2), "C14: Delete removes nothing belonging to another plan")
 	got1, err1 := v.Read(ctx, p1.ID)
 	api.Assert(err1 != nil && got1 == nil, "C14: a deleted plan is no longer readable")
 	got2, err2 := v.Read(ctx, p2.ID)
